@@ -303,7 +303,7 @@ def bursts_w(rng):
 
 def generate(ctx, escalate=False):
     rng = ctx.rng
-    n = 200000 if ctx.thorough() else 5000
+    n = 120000 if ctx.thorough() else 5000      # (thorough was 200000 before the write-failure families were added: keep the tier inside ~30 min)
     if escalate:
         n *= 3
     out = bursts(rng)
@@ -314,7 +314,7 @@ def generate(ctx, escalate=False):
     out += bursts_w(rng)
     out += [L.gen_scenario_w(rng) for _ in range(n // 4)]
     # DTLS sessions with the real GnuTLS: bursts on the session right after the handshake (C19's harness and model)
-    out += gen_dtls(rng, 6000 if ctx.thorough() else 260)
+    out += gen_dtls(rng, 4000 if ctx.thorough() else 260)
     return out
 
 
